@@ -200,8 +200,9 @@ pub fn run(thorough: bool) {
     rep.set("rule", json!("every distinct state reached by breadth-first exploration of the scenario alphabets (real Melda replicas, state = canonical dump of storage, revision trees, stage, block statuses, caches); in each state every operation of the full API alphabet is attempted under catch_unwind and a heartbeat watchdog; distinct_nontrivial = number of distinct observable views seen"));
     rep.set("exhaustive", json!(scs.iter().all(|s| s["capped"].is_null())));
     rep.set("scenarios", json!(scs));
+    crate::props::engine_s::run_engine_s(&mut rep, thorough, "C08");
     rep.set("explanation", json!("Every transition is an execution of the real implementation, so every explored trace is validated against the implementation by construction."));
-    rep.assume("real rayon timing is not enumerated here (pool sizes are); schedules are enumerated by engine S");
+    rep.assume("engine H: real rayon timing is not enumerated (pool sizes are); engine S enumerates schedules of a model of the pool (queue + W workers) over the real melda.rs code and lock nesting, within the preemption bound; rayon internals and std lock implementations are trusted");
     rep.assume("watchdog: a call that makes no progress for MV_WATCHDOG_S (default 10) seconds is reported as not returning");
     rep.finish();
 }
